@@ -1376,7 +1376,40 @@ def kf_round18_case(exe, kind):
         shutil.rmtree(top, ignore_errors=True)
 
 
+KF_MORE = {
+    # kind: (files, args, output file / None for folder, regex on the (raw) output that shows the finding, message)
+    'kotlin_inline_generic_prefix': ({'c/src/lib.rs': '#[typeshare(kotlin = "JvmInline")]\npub struct Tagged<T>(Vec<T>);\n'}, ['--lang', 'kotlin', '--java-package', 'com.x', '--kotlin-prefix', 'App'], 'o.kt',
+                                     r'List<AppT>', 'Kotlin writes the generic parameter T of an inline value class with the configured prefix (`List<AppT>`) and drops `<T>` from the class header'),
+    'single_file_rename_collision': ({'alpha/src/lib.rs': '#[typeshare]\n#[serde(rename = "AlphaStatus")]\npub enum Status { On, Off }\n',
+                                      'beta/src/lib.rs': '#[typeshare]\npub enum Status { Open, Closed }\n#[typeshare]\npub struct Ticket { pub status: Status }\n'}, ['--lang', 'typescript'], 'o.ts',
+                                     r'status: AlphaStatus', 'single-file output: `Ticket.status` of crate beta refers to beta\'s own `Status` but is written `AlphaStatus`, the serde name of a same-named type of crate alpha (folder output is right)'),
+    'use_rename': ({'alpha/src/lib.rs': '#[typeshare]\npub struct Config { pub a: u32 }\n', 'beta/src/lib.rs': 'use alpha::Config as AlphaConfig;\n#[typeshare]\npub struct Uses { pub base: AlphaConfig }\n'},
+                   ['--lang', 'typescript'], None, r'base: AlphaConfig', 'a type imported under another name (`use alpha::Config as AlphaConfig`) is written `AlphaConfig`: no such definition exists and nothing is imported'),
+    'py_field_underscore_digit': ({'c/src/lib.rs': '#[typeshare]\npub struct P { pub _0: u32, pub name: String }\n'}, ['--lang', 'python'], 'o.py', r'(?m)^\s+0: int', 'Python writes the field `_0` as `0: int = Field(alias="_0")`: not an identifier'),
+    'py_unit_enum_backslash': ({'c/src/lib.rs': '#[typeshare]\npub enum E { #[serde(rename = "back\\\\")] A, B }\n'}, ['--lang', 'python'], 'o.py', r'= "back\\"\s*$', 'Python writes the wire name `back\\` of a unit-enum variant as `"back\\"`: the backslash escapes the closing quote'),
+}
+
+
+def kf_more_case(exe, kind):
+    files, args, outname, pat, msg = KF_MORE[kind]
+    top = tempfile.mkdtemp(prefix='clirun-', dir=WORK)
+    try:
+        ws = os.path.join(top, 'ws')
+        tree(ws, files)
+        outd = os.path.join(top, 'out'); os.makedirs(outd)
+        oargs = ['--output-file', os.path.join(outd, outname)] if outname else ['--output-folder', outd]
+        rc, out = run(exe, args + oargs + [ws], cwd=ws, timeout=20)
+        if rc != 0:
+            return None
+        text = '\n'.join(open(os.path.join(outd, f)).read() for f in sorted(os.listdir(outd)))
+        return msg if re.search(pat, text, flags=re.M) else None
+    finally:
+        shutil.rmtree(top, ignore_errors=True)
+
+
 def kf_case(exe, kind):
+    if kind in KF_MORE:
+        return kf_more_case(exe, kind)
     if kind == 'stdout_pipe':
         return stdout_pipe_case(exe)
     if kind in ('folder_outside_src', 'two_roots', 'py_mapped_datetime_nested', 'mod_decl_cfg'):
